@@ -59,6 +59,8 @@ class Contract:
     note: str = ""
     when: str | None = None           # applicability guard for call-site selection among variants (python expr on static facts)
     cone: list = field(default_factory=list)   # extra targets whose obligations this contract relies on
+    ghost_params: dict = field(default_factory=dict)   # logical (ghost) parameters: name -> type; supplied by callers via call_ghosts
+    call_ghosts: dict = field(default_factory=dict)    # statement text -> {callee function name: {ghost name: expr in the caller's scope}}
 
     @property
     def ident(self):
